@@ -97,7 +97,9 @@ Verdict(c) ==
 
 FindVerdict(c) == LET k == FindKey(c.ks, c.tok.kid, c.tok.alg) IN IF k = 0 THEN "none" ELSE IF k = 99 THEN "multiple" ELSE "found"
 
-Entries == {"rp", "at", "hint"}
+\* rpDisc: the relying party's own verifier, its allowed algorithms taken from the provider's discovery document
+\* (rp.NewRelyingPartyOIDC with rp.WithSigningAlgsFromDiscovery; the document also lists OTHER algorithms for OTHER purposes)
+Entries == {"rp", "at", "hint", "rpDisc"}
 Outcomes(c) == {[e \in Entries |-> [v |-> Verdict(c), payloadOK |-> TRUE]] @@ [find |-> FindVerdict(c)]}
 
 RulesEntry(e, c, o) ==
